@@ -1375,6 +1375,12 @@ def _subst_value(ex, v, bi, j):
         return SV(z3.substitute(v.term, (bi, j)), v.ty)
     if isinstance(v, tuple):
         return tuple(_subst_value(ex, x, bi, j) for x in v)
+    if isinstance(v, Ref) and isinstance(st.heap[v.id], SetObj) and not st.heap[v.id].is_empty_literal:
+        # a set built by the element expression (its membership mentions the generic index): the set of element j
+        o = st.heap[v.id]
+        c = SetObj(o.k, z3.substitute(o.member, (bi, j)), z3.substitute(o.n, (bi, j)))
+        c.ty = o.ty
+        return st.alloc(c)
     return v
 
 
